@@ -1,6 +1,7 @@
 (* Model of the two --clean paths of peltool (repaired order): the steps that can fail, in program order, under an
    arbitrary fault schedule.  A step that faults raises; nothing after it runs. *)
-From Coq Require Import List Bool.
+From Coq Require Import List Bool NArith.
+From PV Require Import Base.Bytes.
 Import ListNotations.
 
 Inductive step := OpenOut | Write | Close | Print | Flush | RemoveIn.
@@ -53,3 +54,48 @@ Definition old_json_trace (f : faults) (d : dec) (clean : bool) : list step :=
   match d with DOk => exec f ([OpenOut; Write] ++ (if clean then [RemoveIn] else []) ++ [Close]) | _ => [] end.
 Definition old_file_trace (f : faults) (d : dec) (clean : bool) : list step :=
   exec f ((match d with DOk => [Print] | _ => [] end) ++ (if clean then [RemoveIn] else [])).
+
+(* ---- the effect skeleton of a source function (extracted from the source text by harness/extract_clean.py) ----
+   what of a function matters for "removed only after the output is complete": conditions on the decode result / the clean option /
+   the hex option, `with open(out, "w")` blocks, writes, prints, flushes, removals, returns, try / except.  SUnknown = a call that
+   can touch a file or stream and is none of the known forms. *)
+Inductive skel :=
+| SSeq (l : list skel)
+| SIfDecoded (t e : skel) | SIfClean (t e : skel) | SIfCleanAndPrinted (t e : skel) | SIfHex (t e : skel) | SIfOther (cond : text) (t e : skel)
+| SWithOut (body : skel)
+| STry (exc : text) (body handler : skel)
+| SLoop (body : skel) | SContinue | SBreak | SOpenIn | SOpenRaw
+| SWrite | SPrint | SPrintHex | SFlush | SRemove | SStderr | SCallPrintFile
+| SReturn (b : bool) | SReturnV (value : text)
+| SUnknown (what : text).
+
+(* what a skeleton does when nothing faults: the steps in order, and the value returned (None = fell off the end).
+   dd: the PEL decoded and was selected; cl: --clean; hx: --hex; pr: what parseAndPrintPELFile returned.
+   Conditions of the SIfOther kind (the input could not be opened) do not hold on these paths. *)
+Fixpoint run_sk (dd cl hx pr : bool) (s : skel) : list step * option bool :=
+  match s with
+  | SSeq l =>
+      (fix go (l : list skel) : list step * option bool :=
+         match l with
+         | [] => ([], None)
+         | x :: t => match run_sk dd cl hx pr x with
+                     | (a, Some v) => (a, Some v)
+                     | (a, None) => let '(b, r) := go t in (a ++ b, r)
+                     end
+         end) l
+  | SIfDecoded t e => run_sk dd cl hx pr (if dd then t else e)
+  | SIfClean t e => run_sk dd cl hx pr (if cl then t else e)
+  | SIfCleanAndPrinted t e => run_sk dd cl hx pr (if cl && pr then t else e)
+  | SIfHex t e => run_sk dd cl hx pr (if hx then t else e)
+  | SIfOther _ _ e => run_sk dd cl hx pr e
+  | SWithOut b => let '(a, r) := run_sk dd cl hx pr b in (OpenOut :: a ++ [Close], r)
+  | STry _ b _ => run_sk dd cl hx pr b
+  | SWrite => ([Write], None)
+  | SPrint | SPrintHex => ([Print], None)
+  | SFlush => ([Flush], None)
+  | SRemove => ([RemoveIn], None)
+  | SLoop b => run_sk dd cl hx pr b
+  | SStderr | SCallPrintFile | SUnknown _ | SContinue | SBreak | SOpenIn | SOpenRaw => ([], None)
+  | SReturn b => ([], Some b)
+  | SReturnV _ => ([], Some true)
+  end.
